@@ -144,7 +144,8 @@ def make_enum(name, rule, variants, keys, generic=False, recursive=False, salt=0
                 attrs.append(m_list("serde", [m_nv("rename_all", lit_s(v["variant_rule"]))]))
             first_payload = False
             fs = ("named", fields)
-        vs.append({"attrs": attrs, "ident": v["ident"], "fields": fs})
+        # a variant may be written as a raw identifier (`r#Type`): serde and rustc see the identifier without the prefix
+        vs.append({"attrs": attrs, "ident": ("r#" + v["ident"]) if v.get("raw") else v["ident"], "fields": fs})
         if not v.get("skip"):
             wire = v["rename"] if v.get("rename") is not None else serde_variant(rule, v["ident"])
             exp_v.append(dict(ident=v["ident"], kind=v["kind"], wire=wire, opt=opt))
@@ -185,6 +186,8 @@ def random_enum(rng, name):
     for w in words:
         kind = "u" if not algebraic else rng.choice("uts")
         v = dict(ident=w, kind=kind, rename=rng.choice(RENAMES) if rng.random() < 0.3 else None)
+        if rng.random() < 0.1 and w not in ("Self", "Super", "Crate"):
+            v["raw"] = True
         if rng.random() < 0.08:
             v["skip"] = rng.choice(["serde", "typeshare"])
         if rng.random() < 0.1:
@@ -803,9 +806,9 @@ def run(check):
     report(check, stats, findings)
     if stats["rejected"] * 10 > stats["cases"]:
         check.notes.append("%d of %d requests were rejected by implementation and model alike" % (stats["rejected"], stats["cases"]))
-    if check.thorough and not check.violations:
+    if check.thorough and not check.has_failing():
         thorough(check)
-    if not check.violations:
+    if not check.has_failing():
         on_disk_part(check)
     check.assumptions += [
         "convert_case's snake-casing (Python member names) is external: taken from the real crate through the runner",
